@@ -156,6 +156,13 @@ def run(rep, tier):
             ph_area = ap.area_overlap(c['data'], mask=fin_mask, method=c['method'], subpixels=c['sub'])
         img_s = ms.to_image((c['ny'], c['nx']))
         anypos = img_s is not None and bool(((img_s > 0) & ~fin_mask).any())
+        if not anypos:
+            # no overlap, or no unmasked pixel with positive weight: NaN, never a number
+            for nm in ['sum', 'sum_aper_area'] + (['sum_err'] if c['err'] is not None else []):
+                if not math.isnan(vals[nm]):
+                    rep.violation(f'no-unmasked-pixel-not-nan:{nm}', f'ApertureStats.{nm} = {vals[nm]} for an aperture without any unmasked pixel of '
+                                  f'positive weight (must be NaN)', replay_of(c))
+                    break
         if anypos:
             if not close(vals['sum'], ph_sum[0], rel=1e-9, scale=1.0):
                 rep.violation('sum-ne-photometry', f'ApertureStats.sum {vals["sum"]} != aperture photometry {ph_sum[0]}', replay_of(c))
